@@ -2,7 +2,11 @@
   C13 — query filters mean what they say.  ONLY the property theorems and non-vacuity examples.
   Model: Spydr/Query/Model.lean (patterns.py and the filter stage of every get_*.py, as repaired by
   docs/fixes/query_*.diff).  Spec: Spydr/Query/Spec.lean (inductive relations on the pattern text,
-  `filterSpec`).  All statements are for ALL patterns, values, candidate lists, pattern lists.
+  `filterSpec`).  All statements are for ALL patterns, values, candidate lists, pattern lists OF THE MODEL.
+  The model is the code as repaired: in particular `[` is an ordinary character in wildcard mode
+  (docs/fixes/query_glob_bracket_literal.diff; the pinned code hands the pattern to fnmatch, where `[`
+  opens a character class -- open finding `_value_matches_pattern.glob_bracket.character_class`), and
+  regular expressions are the sub-language literal / escaped literal / `.` / `.*`.
 -/
 import Spydr.Query.LemmasStage
 
@@ -68,48 +72,96 @@ example : valueMatches false false "AB*".toList "abxx".toList = true := by decid
 example : valueMatches false true "a\\[1\\].*".toList "A[1]zz".toList = true := by decide
 example : isAbsolute "a[1]".toList true false = true := by decide
 
-/-! ## the stages -/
+/-! ## the stages
 
-/-- get_netlists -/
-theorem stage_spec_found (c : Cfg) (cands : List Cand) (pats : List Str)
-    (hci : ¬ (c.indexed = true ∧ c.ci = true)) (h : HypFound cands pats) :
-    stageFound c cands pats ~ filterSpec c cands pats :=
-  stage_spec_found_aux c cands pats hci h.2
+`c.second` = the configuration with case-sensitive exact comparison (what every code path except the
+indexed lookup does), `c.direct` = exact comparison ignores case iff `c.indexed ∧ c.ci` (what the direct
+stage does).  `filterSpec c` itself grants case-insensitive exact comparison whenever `c.ci`
+(identifiers under the EDIF policy), as the property does. -/
 
-/-- direct stage (lookup for absolute patterns / scan), any number of parents -/
+/-- get_netlists (no index is involved: exact comparison is case-sensitive) -/
+theorem stage_spec_found (c : Cfg) (cands : List Cand) (pats : List Str) (h : HypFound cands pats) :
+    stageFound c cands pats ~ filterSpec c.second cands pats :=
+  stage_spec_found_aux c cands pats h.2
+
+/-- direct stage (lookup for absolute patterns / scan), any number of parents, the same parent possibly
+    visited several times; `keyedPart`: get_instances never returns a child lacking the key -/
 theorem stage_spec_direct (c : Cfg) (keyed : Bool) (groups : List (List Cand)) (pats : List Str)
     (h : HypDirect c keyed groups pats) :
-    (stageDirect c keyed pats groups []).1 ~ filterSpec c groups.flatten pats :=
+    (stageDirect c keyed pats groups []).1 ~
+      filterSpec c.direct (keyedPart keyed (freshOnes [] groups.flatten)) pats :=
   stageDirect_spec c keyed groups pats h
 
-/-- namemap stage on a duplicate-free list of elements not found before -/
+/-- get_instances' direct stage skips children lacking the key whatever the pattern is (they are not
+    part of its unfiltered result either, so this is consistent with the property's base set) -/
+theorem stage_direct_keyed_skips (c : Cfg) (groups : List (List Cand)) (pats : List Str)
+    (h : HypDirect c true groups pats) :
+    ∀ e ∈ (stageDirect c true pats groups []).1, e.key.isSome = true := by
+  intro e he
+  have := (stage_spec_direct c true groups pats h).mem_iff.mp he
+  simp only [filterSpec, keyedPart, if_true, List.mem_filter] at this
+  exact this.1.2
+
+/-- namemap stage on a duplicate-free list of elements not found before: always case-sensitive -/
 theorem stage_spec_map (c : Cfg) (found others : List Cand) (pats : List Str)
-    (hci : ¬ (c.indexed = true ∧ c.ci = true)) (hn : others.Nodup) (hd : ∀ e ∈ others, e ∉ found) :
-    stageMap c found others pats ~ filterSpec c others pats := by
-  have := stageMap_perm c found others pats hci
+    (hn : others.Nodup) (hd : ∀ e ∈ others, e ∉ found) :
+    stageMap c found others pats ~ filterSpec c.second others pats := by
+  have := stageMap_perm c found others pats
   rwa [freshOnes_self others found hn hd] at this
 
-/-- a whole query of get_libraries / definitions / instances / ports / cables -/
-theorem stage_spec_pipeline (c : Cfg) (keyed : Bool) (groups : List (List Cand)) (others : List Cand)
-    (pats : List Str) (h : HypPipeline c keyed groups others pats) :
+/-- a whole query of get_libraries / definitions / instances / ports / cables AS THE CODE BEHAVES:
+    children of the visited parents are compared as the direct stage compares, elements reached
+    through other root kinds case-sensitively.  No hypothesis on `ci`. -/
+theorem stage_spec_pipeline_split (c : Cfg) (keyed : Bool) (groups : List (List Cand))
+    (others : List Cand) (pats : List Str) (h : HypPipeline c keyed groups others pats) :
     pipeline c keyed groups others pats ~
-      filterSpec c (groups.flatten ++ freshOnes groups.flatten others) pats :=
-  pipeline_spec c keyed groups others pats h
+      filterSpec c.direct (keyedPart keyed (freshOnes [] groups.flatten)) pats ++
+      filterSpec c.second
+        (freshOnes (keyedPart keyed (freshOnes [] groups.flatten)) others) pats :=
+  pipeline_split c keyed groups others pats h
+
+/-- ... which is the property's statement wherever the code is as case-insensitive as documented
+    (`CiConsistent`: not an EDIF-policy identifier query, or the index answers and nothing comes through
+    the second stage) -/
+theorem stage_spec_pipeline (c : Cfg) (keyed : Bool) (groups : List (List Cand)) (others : List Cand)
+    (pats : List Str) (h : HypPipeline c keyed groups others pats) (hc : CiConsistent c others) :
+    pipeline c keyed groups others pats ~
+      filterSpec c (keyedPart keyed (freshOnes [] groups.flatten) ++
+        freshOnes (keyedPart keyed (freshOnes [] groups.flatten)) others) pats :=
+  pipeline_spec c keyed groups others pats h hc
+
+/-- ... and is NOT where it is not: without the index an exact identifier pattern is compared
+    case-sensitively although `c.ci` (open finding `edif_identifier.exact_case_variant.*`): the result
+    depends on whether the accelerated lookup is available -/
+theorem stage_spec_pipeline_unindexed (c : Cfg) (keyed : Bool) (groups : List (List Cand))
+    (others : List Cand) (pats : List Str) (h : HypPipeline c keyed groups others pats)
+    (hi : c.indexed = false) :
+    pipeline c keyed groups others pats ~
+      filterSpec c.second (keyedPart keyed (freshOnes [] groups.flatten) ++
+        freshOnes (keyedPart keyed (freshOnes [] groups.flatten)) others) pats := by
+  have hd : c.direct = c.second := by cases c; simp [Cfg.direct, Cfg.second] at *; simp [hi]
+  have := stage_spec_pipeline_split c keyed groups others pats h
+  rwa [hd, ← filterSpec_append] at this
+
+/-- concrete witness of the inconsistency: identifier `Abc`, exact pattern `aBC`, EDIF policy -/
+example :
+    (pipeline ⟨true, false, true, true⟩ false [[⟨1, some "Abc".toList⟩]] [] ["aBC".toList]).map (·.id) = [1] ∧
+    (pipeline ⟨true, false, false, true⟩ false [[⟨1, some "Abc".toList⟩]] [] ["aBC".toList]).map (·.id) = [] ∧
+    (pipeline ⟨true, false, true, true⟩ false [] [⟨1, some "Abc".toList⟩] ["aBC".toList]).map (·.id) = [] := by
+  decide
 
 /-- hierarchical queries.  `bypass` (elements reached through root kinds for which the code performs
     no name search) is returned unfiltered: this is the open finding `get_h*.pattern_ignored_for_root`;
     with `bypass = []` the statement is the full one. -/
-theorem stage_spec_h (c : Cfg) (bypass named : List Cand) (pats : List Str)
-    (hci : ¬ (c.indexed = true ∧ c.ci = true)) :
+theorem stage_spec_h (c : Cfg) (bypass named : List Cand) (pats : List Str) :
     stageH c bypass named pats ~
       dedup bypass ++
-        filterSpec c ((freshOnes [] named).filter (fun e => !(dedup bypass).contains e)) pats :=
-  stageH_perm c bypass named pats hci
+        filterSpec c.second ((freshOnes [] named).filter (fun e => !(dedup bypass).contains e)) pats :=
+  stageH_perm c bypass named pats
 
-theorem stage_spec_h_full (c : Cfg) (named : List Cand) (pats : List Str)
-    (hci : ¬ (c.indexed = true ∧ c.ci = true)) (hn : named.Nodup) :
-    stageH c [] named pats ~ filterSpec c named pats := by
-  have := stageH_perm c [] named pats hci
+theorem stage_spec_h_full (c : Cfg) (named : List Cand) (pats : List Str) (hn : named.Nodup) :
+    stageH c [] named pats ~ filterSpec c.second named pats := by
+  have := stageH_perm c [] named pats
   simpa [dedup, freshOnes_self named [] hn (fun _ _ => by simp), List.filter_eq_self.mpr] using this
 
 /-- get_pins / get_wires: every element once -/
@@ -117,28 +169,53 @@ theorem stage_spec_none (cands : List Cand) :
     (stageNone cands).Nodup ∧ ∀ e, e ∈ stageNone cands ↔ e ∈ cands :=
   ⟨nodup_dedup cands, fun e => mem_dedup cands e⟩
 
-/-- the candidate list of a whole query is duplicate-free, hence so is the result:
-    no element is returned twice -/
+theorem mem_keyedPart (keyed : Bool) (l : List Cand) (x : Cand) :
+    x ∈ keyedPart keyed l ↔ x ∈ l ∧ (keyed = true → x.key.isSome = true) := by
+  unfold keyedPart; cases keyed <;> simp [List.mem_filter]
+
+theorem matchesCfg_congr {c1 c2 : Cfg} (h1 : c1.isCase = c2.isCase) (h2 : c1.isRe = c2.isRe)
+    (h3 : c1.ci = c2.ci) (p v : Str) : MatchesCfg c1 p v ↔ MatchesCfg c2 p v := by
+  unfold MatchesCfg; rw [h1, h2, h3]
+
+theorem filterSpec_congr_cfg {c1 c2 : Cfg} (h1 : c1.isCase = c2.isCase) (h2 : c1.isRe = c2.isRe)
+    (h3 : c1.ci = c2.ci) (l : List Cand) (pats : List Str) :
+    filterSpec c1 l pats = filterSpec c2 l pats := by
+  unfold filterSpec
+  apply List.filter_congr
+  intro e _
+  rw [Bool.eq_iff_iff]
+  simp only [decide_eq_true_eq]
+  constructor
+  · rintro ⟨p, hp, hm⟩; exact ⟨p, hp, (matchesCfg_congr h1 h2 h3 p _).mp hm⟩
+  · rintro ⟨p, hp, hm⟩; exact ⟨p, hp, (matchesCfg_congr h1 h2 h3 p _).mpr hm⟩
+
+theorem nodup_keyedPart (keyed : Bool) (l : List Cand) (h : l.Nodup) : (keyedPart keyed l).Nodup := by
+  unfold keyedPart; cases keyed
+  · simpa using h
+  · simpa using h.sublist List.filter_sublist
+
+/-- no element is returned twice -- from per-parent duplicate-freeness only: parents may be visited
+    several times, groups may overlap, second-stage elements may repeat and overlap the groups -/
 theorem stage_nodup (c : Cfg) (keyed : Bool) (groups : List (List Cand)) (others : List Cand)
     (pats : List Str) (h : HypPipeline c keyed groups others pats) :
     (pipeline c keyed groups others pats).Nodup := by
-  refine ((stage_spec_pipeline c keyed groups others pats h).nodup_iff).mpr ?_
+  refine ((stage_spec_pipeline_split c keyed groups others pats h).nodup_iff).mpr ?_
+  have hA : (keyedPart keyed (freshOnes [] groups.flatten)).Nodup :=
+    nodup_keyedPart _ _ (nodup_freshOnes _ _)
   unfold filterSpec
-  refine List.Nodup.sublist List.filter_sublist ?_
-  refine List.nodup_append.mpr ⟨h.1.1, nodup_freshOnes _ _, ?_⟩
+  refine List.nodup_append.mpr ⟨hA.sublist List.filter_sublist,
+    (nodup_freshOnes _ _).sublist List.filter_sublist, ?_⟩
   intro a ha b hb hab
   subst hab
-  exact ((mem_freshOnes others groups.flatten a).mp hb).2 ha
+  exact ((mem_freshOnes others _ a).mp (List.mem_filter.mp hb).1).2 (List.mem_filter.mp ha).1
 
-theorem stage_nodup_found (c : Cfg) (cands : List Cand) (pats : List Str)
-    (hci : ¬ (c.indexed = true ∧ c.ci = true)) (h : HypFound cands pats) :
+theorem stage_nodup_found (c : Cfg) (cands : List Cand) (pats : List Str) (h : HypFound cands pats) :
     (stageFound c cands pats).Nodup :=
-  ((stage_spec_found c cands pats hci h).nodup_iff).mpr (h.1.sublist List.filter_sublist)
+  ((stage_spec_found c cands pats h).nodup_iff).mpr (h.1.sublist List.filter_sublist)
 
-theorem stage_nodup_h (c : Cfg) (named : List Cand) (pats : List Str)
-    (hci : ¬ (c.indexed = true ∧ c.ci = true)) (hn : named.Nodup) :
+theorem stage_nodup_h (c : Cfg) (named : List Cand) (pats : List Str) (hn : named.Nodup) :
     (stageH c [] named pats).Nodup :=
-  ((stage_spec_h_full c named pats hci hn).nodup_iff).mpr (hn.sublist List.filter_sublist)
+  ((stage_spec_h_full c named pats hn).nodup_iff).mpr (hn.sublist List.filter_sublist)
 
 theorem filterSpec_pats_congr (c : Cfg) (cands : List Cand) (pats pats' : List Str)
     (hp : ∀ p, p ∈ pats ↔ p ∈ pats') : filterSpec c cands pats = filterSpec c cands pats' := by
@@ -152,84 +229,88 @@ theorem filterSpec_pats_congr (c : Cfg) (cands : List Cand) (pats pats' : List S
   · rintro ⟨p, h1, h2⟩; exact ⟨p, (hp p).mpr h1, h2⟩
 
 /-- the result is the union over the patterns and does not depend on their order or repetition:
-    two pattern lists with the same members give the same multiset -/
+    two pattern lists with the same members give the same multiset (no hypothesis on `ci`) -/
 theorem stage_pattern_order (c : Cfg) (keyed : Bool) (groups : List (List Cand)) (others : List Cand)
     (pats pats' : List Str) (hp : ∀ p, p ∈ pats ↔ p ∈ pats')
     (h : HypPipeline c keyed groups others pats) :
     pipeline c keyed groups others pats ~ pipeline c keyed groups others pats' := by
   have h' : HypPipeline c keyed groups others pats' := by
-    obtain ⟨⟨h1, h2, h3⟩, h4⟩ := h
-    refine ⟨⟨h1, h2, ?_⟩, h4⟩
-    cases h3 with
-    | inl h3 => exact Or.inl h3
-    | inr h3 => exact Or.inr ⟨h3.1, fun hm => h3.2 ((hp []).mpr hm)⟩
-  refine (stage_spec_pipeline c keyed groups others pats h).trans ?_
-  rw [filterSpec_pats_congr c _ pats pats' hp]
-  exact (stage_spec_pipeline c keyed groups others pats' h').symm
+    obtain ⟨h1, h2, h3⟩ := h
+    refine ⟨h1, h2, ?_⟩
+    rcases h3 with h3 | h3 | h3
+    · exact Or.inl h3
+    · exact Or.inr (Or.inl h3)
+    · exact Or.inr (Or.inr (fun hm => h3 ((hp []).mpr hm)))
+  refine (stage_spec_pipeline_split c keyed groups others pats h).trans ?_
+  rw [filterSpec_pats_congr c.direct _ pats pats' hp, filterSpec_pats_congr c.second _ pats pats' hp]
+  exact (stage_spec_pipeline_split c keyed groups others pats' h').symm
 
-/-- union over the patterns, element-wise -/
+/-- union over the patterns, element-wise (where the code is consistent) -/
 theorem stage_union (c : Cfg) (keyed : Bool) (groups : List (List Cand)) (others : List Cand)
-    (pats : List Str) (h : HypPipeline c keyed groups others pats) (e : Cand) :
+    (pats : List Str) (h : HypPipeline c keyed groups others pats) (hc : CiConsistent c others)
+    (e : Cand) :
     e ∈ pipeline c keyed groups others pats ↔
-      (e ∈ groups.flatten ∨ e ∈ others) ∧ ∃ p ∈ pats, MatchesCfg c p e.val := by
-  rw [(stage_spec_pipeline c keyed groups others pats h).mem_iff]
-  simp only [filterSpec, List.mem_filter, List.mem_append, mem_freshOnes, decide_eq_true_eq]
+      (e ∈ keyedPart keyed groups.flatten ∨ e ∈ others) ∧ ∃ p ∈ pats, MatchesCfg c p e.val := by
+  rw [(stage_spec_pipeline c keyed groups others pats h hc).mem_iff]
+  have hk : ∀ x, x ∈ keyedPart keyed (freshOnes [] groups.flatten) ↔ x ∈ keyedPart keyed groups.flatten := by
+    intro x
+    rw [mem_keyedPart, mem_keyedPart, mem_freshOnes]
+    simp
+  simp only [filterSpec, List.mem_filter, List.mem_append, mem_freshOnes, decide_eq_true_eq, hk]
   constructor
   · rintro ⟨h1 | ⟨h1, _⟩, h2⟩
     · exact ⟨Or.inl h1, h2⟩
     · exact ⟨Or.inr h1, h2⟩
   · rintro ⟨h1 | h1, h2⟩
     · exact ⟨Or.inl h1, h2⟩
-    · by_cases hg : e ∈ groups.flatten
+    · by_cases hg : e ∈ keyedPart keyed groups.flatten
       · exact ⟨Or.inl hg, h2⟩
       · exact ⟨Or.inr ⟨h1, hg⟩, h2⟩
 
-/-- the registered fast lookup and the linear fallback give the same result (where the index is
-    case-sensitive; the documented exception is the case-insensitive EDIF identifier index) -/
+/-- the registered fast lookup and the linear fallback give the same result for every key that is not
+    an EDIF-policy identifier (for those the answer DOES depend on the lookup: see
+    `stage_spec_pipeline_unindexed` and the `example` above) -/
 theorem fast_eq_scan (c : Cfg) (keyed : Bool) (groups : List (List Cand)) (others : List Cand)
     (pats : List Str) (hci : c.ci = false)
     (h : HypPipeline { c with indexed := true } keyed groups others pats) :
     pipeline { c with indexed := true } keyed groups others pats ~
       pipeline { c with indexed := false } keyed groups others pats := by
   have h' : HypPipeline { c with indexed := false } keyed groups others pats := by
-    obtain ⟨⟨h1, _, h3⟩, _⟩ := h
-    exact ⟨⟨h1, fun hf => by simp at hf, h3⟩, fun hf => by simp at hf⟩
-  refine (stage_spec_pipeline _ keyed groups others pats h).trans ?_
-  refine Perm.trans (Perm.of_eq ?_) (stage_spec_pipeline _ keyed groups others pats h').symm
-  unfold filterSpec
-  apply List.filter_congr
-  intro e _
-  rw [Bool.eq_iff_iff]
-  simp only [decide_eq_true_eq]
-  have hm : ∀ p, MatchesCfg { c with indexed := true } p e.val ↔
-      MatchesCfg { c with indexed := false } p e.val := by
-    intro p
-    rw [matchesCfg_plain (by simp [hci]), matchesCfg_plain (by simp)]
-  constructor
-  · rintro ⟨p, h1, h2⟩; exact ⟨p, h1, (hm p).mp h2⟩
-  · rintro ⟨p, h1, h2⟩; exact ⟨p, h1, (hm p).mpr h2⟩
+    obtain ⟨h1, _, h3⟩ := h
+    exact ⟨h1, fun hf => by simp at hf, h3⟩
+  have a := stage_spec_pipeline_split _ keyed groups others pats h
+  have b := stage_spec_pipeline_split _ keyed groups others pats h'
+  refine a.trans (Perm.trans (Perm.of_eq ?_) b.symm)
+  rw [filterSpec_congr_cfg (c1 := Cfg.direct { c with indexed := true })
+        (c2 := Cfg.direct { c with indexed := false }) rfl rfl (by simp [Cfg.direct, hci]),
+      filterSpec_congr_cfg (c1 := Cfg.second { c with indexed := true })
+        (c2 := Cfg.second { c with indexed := false }) rfl rfl rfl]
 
-/-- the callback is applied on top of the pattern filter -/
+/-- the callback is applied on top of the pattern filter (immediate from `stage_spec_pipeline_split`
+    and `List.Perm.filter`; listed for completeness, not a headline result) -/
 theorem filter_commutes (c : Cfg) (keyed : Bool) (groups : List (List Cand)) (others : List Cand)
     (pats : List Str) (f : Cand → Bool) (h : HypPipeline c keyed groups others pats) :
     applyFilter f (pipeline c keyed groups others pats) ~
-      (filterSpec c (groups.flatten ++ freshOnes groups.flatten others) pats).filter f :=
-  Perm.filter f (stage_spec_pipeline c keyed groups others pats h)
+      (filterSpec c.direct (keyedPart keyed (freshOnes [] groups.flatten)) pats ++
+       filterSpec c.second
+        (freshOnes (keyedPart keyed (freshOnes [] groups.flatten)) others) pats).filter f :=
+  Perm.filter f (stage_spec_pipeline_split c keyed groups others pats h)
 
 /-! ## non-vacuity -/
 
 private def ex_c : Cfg := ⟨true, false, true, false⟩
 private def ex_groups : List (List Cand) :=
-  [[⟨1, some "Ia".toList⟩, ⟨2, some "Ib".toList⟩], [⟨3, some "Ia".toList⟩, ⟨4, none⟩]]
+  [[⟨1, some "Ia".toList⟩, ⟨2, some "Ib".toList⟩], [⟨3, some "Ic".toList⟩, ⟨4, none⟩],
+   [⟨1, some "Ia".toList⟩, ⟨2, some "Ib".toList⟩]]
 private def ex_others : List Cand := [⟨5, none⟩, ⟨1, some "Ia".toList⟩, ⟨6, some "Ix".toList⟩, ⟨5, none⟩]
-private def ex_pats : List Str := ["Ia".toList, "I?".toList, "Ia".toList]
+private def ex_pats : List Str := ["Ia".toList, "I?".toList, "Ia".toList, "a[1]*".toList]
 
 example : HypPipeline ex_c false ex_groups ex_others ex_pats := by decide
+example : HypPipeline ex_c true ex_groups ex_others ex_pats := by decide
+example : CiConsistent ex_c ex_others := by decide
 example : HypFound [⟨1, some "n".toList⟩, ⟨2, none⟩] ["n*".toList] := by decide
 example : (pipeline ex_c false ex_groups ex_others ex_pats).map (·.id) = [1, 2, 3, 6] := by decide
-example : HypPipeline ⟨true, false, true, true⟩ false [[⟨1, some "Abc".toList⟩, ⟨2, some "x".toList⟩]] []
-    ["aBC".toList] := by decide
-example : (pipeline ⟨true, false, true, true⟩ false [[⟨1, some "Abc".toList⟩, ⟨2, some "x".toList⟩]] []
-    ["aBC".toList]).map (·.id) = [1] := by decide
+example : globMatch "bus[3]*".toList "bus[3]x".toList = true := by decide
+example : valueMatches false false "BUS[3]".toList "bus[3]".toList = true := by decide
 
 end Spydr.Query
